@@ -696,6 +696,10 @@ expr_stmt:
 	testlist_star_expr augassign yield_expr_or_testlist
 	{
 		target := $1
+		switch target.(type) {
+		case *ast.Tuple, *ast.List:
+			yylex.(*yyLex).SyntaxError("illegal expression for augmented assignment")
+		}
 		setCtx(yylex, target, ast.Store)
 		$$ = &ast.AugAssign{StmtBase: ast.StmtBase{Pos: $<pos>$}, Target: target, Op: $2, Value: $3}
 	}
